@@ -39,6 +39,7 @@ func JobQueueMain(args []string) (interface{}, error) {
 	fifo := fs.Bool("fifo", false, "order-sensitive workload: one JobConfig at its limit, mostly Enqueue Jobs")
 	jobsFirst := fs.Bool("jobsfirst", false, "on restart the Job informer lists before the JobConfig informer")
 	statusLag := fs.Bool("statuslag", false, "jobconfigcontroller profile: late JobConfig deliveries, Jobs that finish unstarted or leave early (implies -jcsync)")
+	watchBreak := fs.Bool("watchbreak", false, "the Job watch may break: undelivered events are lost and the informer lists again")
 	applied := fs.Bool("applied", false, "applied-but-error faults")
 	jcsync := fs.Bool("jcsync", false, "run jobconfigcontroller")
 	crashes := fs.Bool("crash", true, "allow crash/restart")
@@ -71,7 +72,7 @@ func JobQueueMain(args []string) (interface{}, error) {
 	switch *mode {
 	case "random":
 		for r := 0; r < *runs; r++ {
-			o := JQOpts{NJC: 1 + rng.Intn(2), StoreLag: *storeLag, JobsFirst: *jobsFirst, JCSync: *jcsync || *statusLag, StatusLag: *statusLag, MaxJobs: 2 + rng.Intn(*maxJobs-1)}
+			o := JQOpts{NJC: 1 + rng.Intn(2), StoreLag: *storeLag, JobsFirst: *jobsFirst, JCSync: *jcsync || *statusLag, StatusLag: *statusLag, WatchBreak: *watchBreak, MaxJobs: 2 + rng.Intn(*maxJobs-1)}
 			for c := 0; c < o.NJC; c++ {
 				o.MaxC = append(o.MaxC, 1+rng.Intn(2))
 			}
